@@ -160,6 +160,9 @@ func runC08(r *core.Run) {
 		return
 	}
 	for i := range obs {
+		if obs[i].Skipped {
+			continue // not executed: the run had already met many calls that do not return
+		}
 		o, op := &obs[i], &ops[i]
 		tg := targets[opT[i]]
 		b := &bobs[opT[i]]
